@@ -10,6 +10,8 @@ from sa.pyindex import get_index
 from sa.report import PROP_ASSUMPTIONS, PROP_EXPLANATION, rule
 from sa.symex import U
 
+from .common import fn_where
+
 PROP_EXPLANATION["C17"] = (
     "The operator table (level, associativity, operand levels) is derived from the compiled Lark rules by following the "
     "unit-production chain from assignment_expr to primary_expr and compared with C11 Annex A.2.1; alternative orders and "
@@ -343,3 +345,47 @@ def r17_6(ctx):
     ctx.check("grammar file agrees", paths[0][1] == paths[1][1] == ["Conf.get_path(InputFile.GRAMMAR, 'Hexagon')"], "Conf.get_path(InputFile.GRAMMAR, 'Hexagon') at both sites", f"{paths[0][1]} vs {paths[1][1]}", f"{paths[1][2].path.relative_to(idx.repo)}:{paths[1][2].node.lineno}")
     tbl = idx.enum_table("InputFile")
     ctx.check("InputFile.GRAMMAR path", tbl.get("GRAMMAR") == "<REPO>/Resources/<ARCH>/grammar.lark", "<REPO>/Resources/<ARCH>/grammar.lark", str(tbl.get("GRAMMAR")), "rzilcompiler/Configuration.py")
+    # the Lark object is used as it is: nothing sits between the text and the Earley parser (a wrapper could cache,
+    # normalise or rewrite the text and make the tree depend on earlier inputs)
+    def lark_call(n):
+        return isinstance(n, ast.Call) and isinstance(n.func, ast.Name) and n.func.id == "Lark"
+
+    for fi in idx.funcs.values():
+        if fi.module.endswith("Tests") or ".Tests." in fi.module:
+            continue
+        body_calls = [n for n in ast.walk(fi.node) if lark_call(n)]
+        if not body_calls:
+            continue
+        direct = {}
+        for n in ast.walk(fi.node):
+            if isinstance(n, ast.Assign) and lark_call(n.value):
+                for t in n.targets:
+                    direct[U(t)] = n.value
+        bound = set(id(v) for v in direct.values())
+        for c in body_calls:
+            ctx.check(f"{fi.qual}: the Lark instance is bound as it is", id(c) in bound, "<name> = Lark(...)", "the Lark(...) object is wrapped or passed on inside another expression", fn_where(idx, fi))
+    fc = idx.func("Compiler.set_lark_parser")
+    vals = []
+    for fi in idx.funcs.values():
+        if fi.cls != "Compiler":
+            continue
+        local = {U(t): n.value for n in ast.walk(fi.node) if isinstance(n, ast.Assign) for t in n.targets}
+        for n in ast.walk(fi.node):
+            if isinstance(n, ast.Assign) and any(U(t) == "self.parser" for t in n.targets):
+                v = n.value
+                if isinstance(v, ast.Name) and v.id in local:
+                    v = local[v.id]
+                vals.append((fi, v))
+    ctx.need(vals, "no assignment to Compiler.parser found")
+    for fi, v in vals:
+        ctx.check("Compiler.parser is the Lark instance itself", lark_call(v) or (isinstance(v, ast.Constant) and v.value is None), "self.parser = Lark(...)", U(v)[:80], fn_where(idx, fi))
+    # ... and the text handed to .parse() is the caller's text
+    for q, recv in (("Compiler.compile_c_stmt", "self.parser"), ("Compiler.compile_sub_routine", "self.parser")):
+        if not idx.has_func(q):
+            continue
+        fi = idx.func(q)
+        pcs = [n for n in ast.walk(fi.node) if isinstance(n, ast.Call) and isinstance(n.func, ast.Attribute) and n.func.attr == "parse" and U(n.func.value) == recv]
+        params = {a.arg for a in fi.node.args.args}
+        for c in pcs:
+            ok = len(c.args) == 1 and isinstance(c.args[0], ast.Name) and c.args[0].id in params and not c.keywords
+            ctx.check(f"{q} parses its text argument unmodified", ok, "self.parser.parse(<parameter>)", U(c)[:80], fn_where(idx, fi), nontrivial=False)
